@@ -12,7 +12,7 @@ EXTENDS Naturals, Integers, Sequences, FiniteSets, TLC, Json, IOUtils
 Rec == ndJsonDeserialize(IOEnv.TRACE)
 VARIABLES l, scn, svcname, accepted, pend, bad, bad16
 tvars == <<l, scn, svcname, accepted, pend, bad, bad16>>
-NoPend == [stage |-> "none", m |-> "", args |-> "", dl |-> 0, ret |-> ""]
+NoPend == [stage |-> "none", m |-> "", args |-> "", dl |-> 0, tr |-> "", ret |-> ""]
 TInit == l = 1 /\ scn = 0 /\ svcname = "" /\ accepted = TRUE /\ pend = NoPend /\ bad = {} /\ bad16 = {}
 
 Step ==
@@ -26,11 +26,11 @@ Step ==
                    THEN bad16 \cup {"the generated client panicked on a well-formed response of another rpc's type"} ELSE bad16
      /\ CASE e.ev = "Reset" -> svcname' = e.svcname /\ accepted' = e.accepted /\ pend' = NoPend /\ bad' = {}
           [] e.ev = "ClientCall" ->
-               /\ pend' = [stage |-> "call", m |-> e.m, args |-> e.args, dl |-> e.dl, ret |-> ""]
+               /\ pend' = [stage |-> "call", m |-> e.m, args |-> e.args, dl |-> e.dl, tr |-> e.tr, ret |-> ""]
                /\ bad' = IF pend.stage \in {"none", "done"} THEN bad ELSE bad \cup {"previous call did not complete"}
                /\ UNCHANGED <<svcname, accepted>>
           [] e.ev = "ImplCall" ->
-               /\ bad' = IF pend.stage = "call" /\ e.m = pend.m /\ e.args = pend.args /\ e.dl = pend.dl THEN bad
+               /\ bad' = IF pend.stage = "call" /\ e.m = pend.m /\ e.args = pend.args /\ e.dl = pend.dl /\ e.tr = pend.tr THEN bad
                          ELSE bad \cup {"implementor invoked with another method, other arguments/order or another context"}
                /\ pend' = [pend EXCEPT !.stage = "impl", !.ret = e.ret]
                /\ UNCHANGED <<svcname, accepted>>
